@@ -51,9 +51,12 @@ def thaw_cache(fc):
         parent = p[: len(p) - len(seg)]
         c.add(parent, thaw_node(fn), [seg])
     if freeze_cache(c) != fc:
-        from .engine import HarnessError
-        raise HarnessError("frontier cache does not survive snapshot/restore")
+        raise CacheNotIsolated()
     return c
+
+
+class CacheNotIsolated(Exception):
+    """a freshly created TrieFrontierCache filled with exactly the recorded entries holds something else: instances share state"""
 
 
 class WalkSys:
@@ -156,7 +159,12 @@ class WalkSys:
         # ---- walker step
         p = ev[1]
         fog = build_fog(fogm)
-        cache = thaw_cache(fcache)
+        try:
+            cache = thaw_cache(fcache)
+        except CacheNotIsolated:
+            viols.append(V("C09", "frontier_cache_not_isolated", "a new TrieFrontierCache holds entries it was never given (instances share state)",
+                           prefix=p, prune=self.prune))
+            return Step(None, model, viols)
         live = dict(t=t, fog=fog, cache=cache, met=set(met))
         err = self.visit(live, p)
         if err:
